@@ -17,6 +17,8 @@ def main():
                     help='wall guard in seconds for the generation phase '
                          '(hit => inconclusive beyond, never a violation)')
     args = ap.parse_args()
+    if args.replay:
+        args.replay = os.path.abspath(args.replay)
 
     try:
         seed = int(os.environ.get('VERIF_SEED', '1') or '1')
